@@ -24,7 +24,7 @@ impl FontStyle {
     pub fn contains(&self, other: FontStyle) -> (r: bool) { unimplemented!() }
 }
 
-/// `utils::bat::terminal::to_ansi_color` (verified separately; here a function of its arguments).
+/// `utils::bat::terminal::to_ansi_color` (U43 has it under contract; here a function of its arguments).
 pub uninterp spec fn to_ansi_color_spec(c: SyntectColor, true_color: bool) -> Option<ansi_term::Color>;
 #[verifier::external_body]
 pub fn to_ansi_color(color: SyntectColor, true_color: bool) -> (r: Option<ansi_term::Color>)
